@@ -282,6 +282,11 @@ loop:
 	case Shutdown:
 		return errorx.ErrEngineShutdown
 	}
+	if !c.opened {
+		// The connection has been closed inside OnTraffic (e.g. by EventLoop.Close or
+		// a failed write), the file descriptor is gone and must not be read again.
+		return nil
+	}
 	_, _ = c.inboundBuffer.Write(c.buffer)
 	c.buffer = c.buffer[:0]
 
